@@ -6,6 +6,7 @@ Property theorems only (helper lemmas are in Lemmas/Rng.lean).  The model is Mod
 regenerated from /repo/starsim/distributions.py on every run.
 -/
 import StarsimModel.Lemmas.Rng
+import StarsimModel.Generated.SeedFacts
 
 namespace StarsimModel.C04
 open StarsimModel.Rng
@@ -16,6 +17,11 @@ theorem C04_stride_positive : 0 < Gen.dtJumpSize := by decide
 
 /-- The auto-advance after a draw must move forward. -/
 theorem C04_delta_positive : 0 < Gen.jumpDefaultDelta := by decide
+
+/-- The simulation loop advances streams only through `Module.start_step`, whose call — regenerated from the source —
+    is the plain, unforced `self.dists.jump_dt()`: the hypothesis `loopOp` of the theorems below (no `force`) is
+    what the code does.  (A forced jump there would silently overlap instead of raising when a step over-draws.) -/
+theorem C04_loop_jumps_unforced : Gen.Seed.startStepJumps = ["self.dists.jump_dt()"] := by decide
 
 /-- **Monotone.** For every operation list the simulation loop can issue (jumps, timestep jumps, draws,
     direct generator use; no `force`, no `reset`, no re-`init`), from any state whose generator is not behind
